@@ -34,7 +34,16 @@ def to_oa_date(date):
 
 
 def to_date(oadate):
-    value = oadate - DAYS_EPOCH
+    # Split into whole days and the time of day in milliseconds, rounded to
+    # the nearest millisecond. The float day number of a date near the year
+    # 9999 carries about 30 microseconds of error; truncating instead of
+    # rounding returned most times of day one second early.
+    days = math.floor(oadate)
+    millis = round((oadate - days) * 86400000)
+    if millis >= 86400000:
+        days += 1
+        millis -= 86400000
+    value = days - DAYS_EPOCH
     year = 1970
     while value < 0:
         year -= 1
@@ -46,15 +55,13 @@ def to_date(oadate):
     while value >= month_days(year, month):
         value -= month_days(year, month)
         month += 1
-    day = math.trunc(value) + 1
-    value = value - math.trunc(value)
-    hours = math.trunc(value * 24)
-    value = value * 24 - hours
-    minutes = math.trunc(value * 60)
-    value = value * 60 - minutes
-    seconds = math.trunc(value * 60)
-    value = value * 60 - seconds
-    microseconds = math.trunc(value * 1000 * 1000)
+    day = value + 1
+    seconds = millis // 1000
+    millis = millis % 1000
+    minutes = seconds // 60
+    seconds = seconds % 60
+    hours = minutes // 60
+    minutes = minutes % 60
     result = datetime.datetime.fromtimestamp(0)
     return result.replace(
         year=year,
@@ -63,5 +70,5 @@ def to_date(oadate):
         hour=hours,
         minute=minutes,
         second=seconds,
-        microsecond=microseconds
+        microsecond=millis * 1000
     )
